@@ -26,6 +26,14 @@ Theorem C03_three_strikes :
 Proof. exact hb_trips_exactly. Qed.
 Print Assumptions C03_three_strikes.
 
+(* over EVERY history of refresh outcomes of a term: the regenerated "three strikes" comparison holds exactly when the
+   last three refreshes all failed (a success in between starts the count again) *)
+Theorem C03_three_strikes_every_history :
+  forall outs, gen_hb_trips (Z.of_nat (hrun outs)) gen_hb_max_failures = true <->
+               exists pre, outs = pre ++ [false; false; false].
+Proof. exact hb_trips_history. Qed.
+Print Assumptions C03_three_strikes_every_history.
+
 Theorem C03_timeout_is_max_half_interval_one_second :
   forall H, gen_hb_update_timeout H = Z.max (Z.quot H 2) (1 * sec).
 Proof. exact hb_update_timeout_agree. Qed.
